@@ -112,6 +112,12 @@ func VerifC27FieldCovered() {
 	f := verifParam("field", 0)
 	e1, d1 := verifC27Base()
 	e2, d2 := verifC27Base()
+	if verifBool("other-fields-empty") {
+		// the same question with every other field at its zero value (a field must
+		// not be covered only while a neighbouring field happens to be set)
+		z := LogDetails{}
+		*d1, *d2 = z, z
+	}
 	verifC27Set(e1, d1, f, "v1")
 	verifC27Set(e2, d2, f, "v2")
 	p1 := verifC27PreImageOf(e1)
